@@ -8,6 +8,7 @@ import (
 	"os"
 	"strings"
 	"sync"
+	"sync/atomic"
 	"time"
 	"unsafe"
 
@@ -459,10 +460,11 @@ type run struct {
 	pubsDone   []bool
 	ctlDone    [2]bool
 	cbErr      error
-	tabMu      sync.Mutex // real mutex around the subscription table (two control tasks add to it)
-	unsubAllIn int64      // >0 while an UnsubAll call is in progress (its invocation stamp)
-	unsubAlls  [][2]int64 // invocation and return stamps of the UnsubAll calls that have returned
-	mu         sync.Mutex // real mutex: OnPubTimeout is invoked from several library goroutines
+	tabMu      sync.Mutex   // real mutex around the subscription table (two control tasks add to it)
+	cbUnsub    atomic.Int32 // Unsub calls made from inside OnPubTimeout that have not returned
+	unsubAllIn int64        // >0 while an UnsubAll call is in progress (its invocation stamp)
+	unsubAlls  [][2]int64   // invocation and return stamps of the UnsubAll calls that have returned
+	mu         sync.Mutex   // real mutex: OnPubTimeout is invoked from several library goroutines
 	touts      []delivery
 	sends      []sendRec // every completed send of the run, from the simulator's observer (under mu)
 }
@@ -562,9 +564,11 @@ func (H) Execute(scAny any, cfg simrt.Config, st *core.Stats) (*simrt.Outcome, *
 				st := r.subs[sc.UnsubOnTimeout-1]
 				simrt.Count("fault.unsub_from_callback", 1)
 				st.removedInv = simrt.Stamp()
+				r.cbUnsub.Add(1)
 				if err := r.ps.Unsub(st.ch); err != nil {
 					r.cbErr = err
 				}
+				r.cbUnsub.Add(-1)
 				st.removedRet = simrt.Stamp()
 			}
 		}
@@ -791,7 +795,13 @@ func (r *run) check(out *simrt.Outcome, st *core.Stats) *core.Violation {
 	sc := r.sc
 	// with a positive PubTimeoutAfter every hand-off ends within the timeout, so no
 	// publish, subscribe or unsubscribe call can be blocked when the run has ended
-	if sc.Timeout > 0 {
+	if sc.Timeout > 0 && r.cbUnsub.Load() > 0 {
+		// The OnPubTimeout callback called Unsub and that call never returned.
+		// Nothing says that the callback may re-enter the PubSub (the pinned code
+		// happens to allow it for the asynchronous variants and deadlocks for the Sync
+		// ones): whoever is blocked behind it is not judged.
+		st.Add("oracle.unsub_from_callback_never_returned", 1)
+	} else if sc.Timeout > 0 {
 		for _, a := range out.Alive {
 			// a goroutine of the library that is still trying to hand something over (a
 			// send, or a select with a send case); one that sits waiting to receive its
@@ -819,6 +829,9 @@ func (r *run) check(out *simrt.Outcome, st *core.Stats) *core.Violation {
 	for _, c := range append(append([]ctlRec(nil), r.ctl...), r.ctl2...) {
 		if !c.done {
 			continue
+		}
+		if c.op.Op == "unsuball" {
+			continue // the statement does not say what UnsubAll returns
 		}
 		if c.err != c.want && !(c.orNil && c.err == nil) {
 			return &core.Violation{Signature: "wrong-error:" + c.op.Op, Detail: fmt.Sprintf("%+v returned %v, want %v", c.op, c.err, c.want)}
@@ -870,7 +883,7 @@ func (r *run) check(out *simrt.Outcome, st *core.Stats) *core.Violation {
 			if s.removedRet >= 0 && c.inv > s.removedRet {
 				return &core.Violation{Signature: "delivery-after-removal", Detail: fmt.Sprintf("subscription %d was removed (call returned at step %d) and still received event %d of a %s invoked at step %d", si, s.removedRet, d.tok, c.pc.Variant, c.inv)}
 			}
-			if c.returned && s.createdInv > c.ret {
+			if c.returned && !isAsync(c.pc.Variant) && s.createdInv > c.ret {
 				return &core.Violation{Signature: "delivery-before-subscription", Detail: fmt.Sprintf("subscription %d (created at step %d) received event %d of a call that had returned at step %d", si, s.createdInv, d.tok, c.ret)}
 			}
 			if isSync(c.pc.Variant) {
@@ -886,7 +899,7 @@ func (r *run) check(out *simrt.Outcome, st *core.Stats) *core.Violation {
 		if s.closedSeen >= 0 && (s.removedInv < 0 || s.closedSeen < s.removedInv) {
 			return &core.Violation{Signature: "closed-without-unsub", Detail: fmt.Sprintf("subscription %d was observed closed at step %d but was not removed (removal invoked at %d)", si, s.closedSeen, s.removedInv)}
 		}
-		if s.removedRet >= 0 && s.closedSeen < 0 && (s.spec.Mode == "good" || s.spec.Mode == "slow") && !out.Stuck {
+		if s.removedRet >= 0 && s.closedSeen < 0 && (s.spec.Mode == "good" || s.spec.Mode == "slow") && !out.Truncated {
 			return &core.Violation{Signature: "removed-but-not-closed", Detail: fmt.Sprintf("subscription %d was removed but its receiver never saw the channel closed", si)}
 		}
 	}
@@ -965,7 +978,10 @@ func (r *run) check(out *simrt.Outcome, st *core.Stats) *core.Violation {
 						end = inf // "eventually": only subscriptions never removed are required to be reached
 					}
 					throughout := s.createdRet < c.inv && (s.removedInv < 0 || s.removedInv > end)
-					atSomeInstant := s.createdInv < c.ret && (s.removedRet < 0 || s.removedRet > c.inv)
+					// (Pub and PubSlice only promise "eventually": a subscription made after
+					// the call returned may still be reached by an implementation that fans
+					// out later, over the list as it is then)
+					atSomeInstant := (s.createdInv < c.ret || isAsync(c.pc.Variant)) && (s.removedRet < 0 || s.removedRet > c.inv)
 					if atSomeInstant {
 						upper++
 					}
